@@ -81,12 +81,13 @@ def obj2d(
     uuid: Optional[str] = None,
     frame: Any = FrameID.CAM_FRONT,
     t: int = 100,
+    raw_name: Optional[str] = None,
 ) -> DynamicObject2D:
     return DynamicObject2D(
         unix_time=t,
         frame_id=frame,
         semantic_score=float(score),
-        semantic_label=label(lab, family),
+        semantic_label=label(lab, family, raw_name=raw_name),
         roi=roi,
         uuid=uuid,
     )
